@@ -26,6 +26,13 @@ pub fn run_a_star(
     weight_factor: Option<Cost>,
     si: &SearchInstance,
 ) -> Result<SearchResult, SearchError> {
+    // a vertex that is not in the graph has no incident edges, so without this test a search from
+    // it ends at once and reports success with an empty tree
+    si.directed_graph.get_vertex(&source)?;
+    if let Some(target_id) = target {
+        si.directed_graph.get_vertex(&target_id)?;
+    }
+
     if target.map_or(false, |t| t == source) {
         return Ok(SearchResult::default());
     }
